@@ -150,6 +150,14 @@ def cases(tier, seed):
         dt = DTS[int(rng.integers(len(DTS)))]
         t0 = T0S[int(rng.integers(len(T0S)))] if rng.random() < 0.75 else str(round(float(rng.uniform(-3, 3)), int(rng.integers(1, 4))))
         k = int(rng.integers(1, 41))
+        if rng.random() < 0.12 and Decimal(dt) >= Decimal("0.02"):
+            # far from the time origin and / or a final time a tiny fraction of a step beyond a grid point
+            t0 = ["10000", "-2000", "5000.5", t0][int(rng.integers(4))]
+            frac = Decimal(1) - Decimal(["0.0001", "0.001", "0.00001"][int(rng.integers(3))])
+            t1 = str(Decimal(t0) + (k - frac) * Decimal(dt))
+            spec = {"solver": solver, "system": system, "t0": t0, "t1": t1, "dt": dt, "grid": "tiny_remainder"}
+            out.append(spec)
+            continue
         if rng.random() < 0.75:
             t1 = str(Decimal(t0) + k * Decimal(dt))
             grid = "multiple"
@@ -402,6 +410,27 @@ def check_contract(ctx, sol, system, solver_name, cls, t0, t1, dt, truncated, de
                     break
             if bad:
                 ctx.violation("Solution.__iter__", "record does not equal the corresponding rows of the fields", {**det, "first_mismatch": list(bad)})
+        # several iterations over the same solution alive at once (pairs of instants, look-ahead, nested loops): each of them
+        # yields one record per instant
+        try:
+            pairs = list(zip(sol, sol))
+            def drain(it):          # (the iterator object itself is not iterable on the pinned tree: use next())
+                n_ = 0
+                while True:
+                    try:
+                        next(it)
+                    except StopIteration:
+                        return n_
+                    n_ += 1
+            it1 = iter(sol); first = next(it1); it2 = iter(sol); n_rest = drain(it1); n_second = drain(it2)
+            nested = sum(1 for _a in sol for _b in (sol if nt <= 60 else [0]))
+        except Exception as e:
+            ctx.violation("Solution.__iter__", "simultaneous iterations over the solution raise", {**det, "error": f"{type(e).__name__}: {e}"[:300]})
+        else:
+            want_nested = nt * (nt if nt <= 60 else 1)
+            if len(pairs) != nt or any(a.t != b.t or a.t != t[i] for i, (a, b) in enumerate(pairs)) or n_rest != nt - 1 or n_second != nt or nested != want_nested or first.t != t[0]:
+                ctx.violation("Solution.__iter__", "two iterations over the same solution disturb each other (records skipped or mismatched)",
+                              {**det, "zip_pairs": len(pairs), "rest_of_first_iterator": n_rest, "second_iterator": n_second, "nested_count": nested, "nested_expected": want_nested})
     # ---- save / load
     ctx.mon("SAVELOAD:roundtrip")
     # the SAME file name is reused by all cases of a worker process (a post-processing script overwriting its result file):
